@@ -159,3 +159,15 @@ From XcpProofs Require Import XOps.
 Theorem C05_src_queue_file_blocks_steps : x_queue_file_blocks_steps = queue_file_blocks_steps.
 Proof. exact x_queue_file_blocks_steps_ok. Qed.
 Print Assumptions C05_src_queue_file_blocks_steps.
+
+From XcpProofs Require Import XDrivers.
+(* ---- main(), translated (the update loop and the join): an Error update anywhere in the stream makes the exit status
+   non-zero whatever the driver thread returns — the only report of a failed block job of parblock ---- *)
+Theorem C05_src_error_update_reaches_exit : forall s1 e s2 handle,
+  x_main_collect (s1 ++ XuError e :: s2) handle <> None.
+Proof. exact x_error_update_reaches_exit. Qed.
+Theorem C05_src_exit_status : forall stats handle,
+  x_main_collect stats handle = None <-> has_error stats = false /\ handle = None.
+Proof. exact x_main_collect_ok_iff. Qed.
+Print Assumptions C05_src_error_update_reaches_exit.
+Print Assumptions C05_src_exit_status.
